@@ -65,6 +65,13 @@ func configuredCases(tier string) []*space.Case {
 	ex.Cfg.Exclude = []string{"Shared.Label", "Alpha.Items", "Beta.ByKey.Tiny", "Gamma.KT", "Tiny.N"}
 	ex.Label = "F5/all|excluded"
 	out = append(out, ex)
+	out = append(out, space.AllExcluded()...)
+	// multi-file packages: the non-root messages live in an imported file of the same package
+	for _, c := range []*space.Case{space.F4()[0], space.F5()[0], space.F4()[4]} {
+		if sc := space.Split(c); sc != nil {
+			out = append(out, sc)
+		}
+	}
 	// recursive message graph cut by exclude_fields (README: the way to handle it)
 	node := &dsl.Message{Name: "Node", Fields: []*dsl.Field{
 		{Name: "Next", Num: 1, T: dsl.Msg, Ref: "Node"},
